@@ -245,8 +245,8 @@ prop("C08", harness="h_exact",
           "(class 'large(n>60)', 'dimension>=100'). Non-trivial = cycle-space dimension >= 3 and the transform is not 'isolated vertices'.",
      assumptions=["exact weight domain (int: all sums < 2^30)", "transforms are pure functions of (graph, recipe) so the case shrinks and replays"])
 prop("C09", harness="h_exact",
-     quick=dict(shards=16, cases=3000, env={"VERIF_MAXN": "12"}),
-     thorough=dict(shards=16, cases=30000, env={"VERIF_MAXN": "14"}),
+     quick=dict(shards=16, cases=10000, env={"VERIF_MAXN": "12"}),
+     thorough=dict(shards=16, cases=40000, env={"VERIF_MAXN": "14"}),
      rule="Generated simple graphs with INEXACT double weights in [1e-3,1e3] (decimal palettes 0.1..1.1, multiples of 0.1 / 0.01, scaled decimals, "
           "k/7, log-uniform random doubles) x all six exact variants; oracle in exact rational arithmetic (__int128 scaled by 2^62): C01 validity, "
           "|returned - exact sum| <= 1e-9*sum, exact sum <= (1+1e-9)*exact optimum (brute force / de Pina over the rationals the doubles denote). "
@@ -310,8 +310,8 @@ prop("C05", harness="h_approx",
           "edge was dropped (read through the guarded accessors).",
      assumptions=["exact weight domain", "Graph has an interior edge_weight property of the weight type (required by BaseApproxSpannerAlgorithm)"])
 prop("C06", harness="h_approx",
-     quick=dict(shards=16, cases=3000, env={"VERIF_MAXN": "12"},
-                extra_phases=[dict(shards=16, cases=200, env={"VERIF_MAXN": "48", "VERIF_MAXM": "110"}, seed_offset=400)]),
+     quick=dict(shards=16, cases=8000, env={"VERIF_MAXN": "12"},
+                extra_phases=[dict(shards=16, cases=300, env={"VERIF_MAXN": "48", "VERIF_MAXM": "110"}, seed_offset=400)]),
      thorough=dict(shards=16, cases=20000, env={"VERIF_MAXN": "30"},
                    extra_phases=[dict(shards=16, cases=1200, env={"VERIF_MAXN": "45", "VERIF_MAXM": "140"}, seed_offset=400)]),
      rule="As C05 plus k=0; oracle: exact integer comparison sum <= (2k-1)*opt and sum >= opt against the reference optimum (brute force / de Pina); "
@@ -319,8 +319,8 @@ prop("C06", harness="h_approx",
           "dropped edge (class 'approximation-strictly-worse-than-optimum' counts the cases where the bound is really exercised).",
      assumptions=["exact weight domain; bound checked for k <= 10^6 (for larger k it is implied by validity)"])
 prop("C15", harness="h_approx",
-     quick=dict(shards=16, cases=3000, env={"VERIF_MAXN": "20"},
-                extra_phases=[dict(shards=16, cases=300, env={"VERIF_MAXN": "70", "VERIF_MAXM": "400"}, seed_offset=400)]),
+     quick=dict(shards=16, cases=12000, env={"VERIF_MAXN": "20"},
+                extra_phases=[dict(shards=16, cases=800, env={"VERIF_MAXN": "70", "VERIF_MAXM": "400"}, seed_offset=400)]),
      thorough=dict(shards=16, cases=25000, env={"VERIF_MAXN": "40"},
                    extra_phases=[dict(shards=16, cases=3000, env={"VERIF_MAXN": "150", "VERIF_MAXM": "900"}, seed_offset=400)]),
      rule="BaseApproxSpannerAlgorithm constructed (no run) on generated graphs with tie-heavy palettes, k in 1..8; oracle through the guarded read-only "
@@ -340,7 +340,7 @@ prop("C10", harness="h_dimacs",
      assumptions=["lines of at most 1022 bytes plus newline, no blank lines, no CR/NUL bytes, exactly one problem line before the first edge line (the stated domain)",
                   "graph type adjacency_list<vecS,vecS,undirectedS,no_property,edge_weight double> as in the demos"])
 prop("C17", harness="h_alg",
-     quick=dict(shards=16, cases=5000),
+     quick=dict(shards=16, cases=8000),
      thorough=dict(shards=16, cases=60000),
      rule="Model-based history check: generated operation lists (<=60 ops: unit/set/copy/move construction and assignment incl. self-assignment, "
           "+, += incl. aliasing, clear, vector*vector, vector*set) over 4 registers and dimension 1..70 against a dense vector<bool> model; after "
@@ -348,7 +348,7 @@ prop("C17", harness="h_alg",
           "model parity. Non-trivial = history contains a + / += with overlapping operands and a later product.",
      assumptions=["moved-from vectors are cleared before reuse (their state is unspecified)", "indices < dimension"])
 prop("C18", harness="h_alg",
-     quick=dict(shards=16, cases=5000),
+     quick=dict(shards=16, cases=25000),
      thorough=dict(shards=16, cases=100000),
      rule="Generated arguments for T in {int,long,cpp_int}: ext_gcd over all sign/zero patterns, a=+-b, a|b, consecutive Fibonacci, random magnitudes; "
           "get_mult_inverse for prime and composite moduli, any sign of a; is_prime over small values, prime squares, Carmichael numbers, searched "
@@ -360,8 +360,8 @@ prop("C18", harness="h_alg",
                   "and |scalar|*p are representable in T (the equations of the property must be evaluable in the type); cpp_int unrestricted up to 2^200",
                   "is_prime: whole int range; long/cpp_int restricted by trial-division cost to p < 2^36 or numbers with a factor <= 997"])
 prop("C12", harness="h_comp",
-     quick=dict(shards=16, cases=4000, env={"VERIF_MAXN": "14"},
-                extra_phases=[dict(shards=16, cases=150, env={"VERIF_MAXN": "40", "VERIF_MAXM": "120"}, seed_offset=400)]),
+     quick=dict(shards=16, cases=8000, env={"VERIF_MAXN": "14"},
+                extra_phases=[dict(shards=16, cases=250, env={"VERIF_MAXN": "40", "VERIF_MAXM": "120"}, seed_offset=400)]),
      thorough=dict(shards=16, cases=30000, env={"VERIF_MAXN": "22"},
                    extra_phases=[dict(shards=16, cases=1500, env={"VERIF_MAXN": "60", "VERIF_MAXM": "200"}, seed_offset=400)]),
      rule="Generated graphs with tie-heavy exact palettes (80% unit/{1,2}/{1,2,3}) x {double,int}; all n SPTree objects are built and "
@@ -370,8 +370,8 @@ prop("C12", harness="h_comp",
           "path is the chosen path between its endpoints. Non-trivial = some ordered pair has >=2 distinct shortest paths (path counting in the oracle).",
      assumptions=["exact weight domain", "index/weight maps outlive the trees (as in the library's own callers)"])
 prop("C13", harness="h_comp",
-     quick=dict(shards=16, cases=6000, env={"VERIF_MAXN": "30"},
-                extra_phases=[dict(shards=16, cases=300, env={"VERIF_MAXN": "300", "VERIF_MAXM": "900"}, seed_offset=400)]),
+     quick=dict(shards=16, cases=20000, env={"VERIF_MAXN": "30"},
+                extra_phases=[dict(shards=16, cases=600, env={"VERIF_MAXN": "300", "VERIF_MAXM": "900"}, seed_offset=400)]),
      thorough=dict(shards=16, cases=80000, env={"VERIF_MAXN": "60"},
                    extra_phases=[dict(shards=16, cases=800, env={"VERIF_MAXN": "1500", "VERIF_MAXM": "5000"}, seed_offset=400)]),
      rule="Generated simple graphs (all shapes, extra pendant trees) -> greedy_fvs; oracle: outputs are vertices, pairwise distinct, removing "
@@ -391,7 +391,7 @@ prop("C14", harness="h_comp",
           "reaches dimension m-n+c and the reference optimum weight. Non-trivial = dimension>=2 and |ISO|<|Horton|.",
      assumptions=["exact weight domain"])
 prop("C16", harness="h_comp",
-     quick=dict(shards=16, cases=5000, env={"VERIF_MAXN": "30"},
+     quick=dict(shards=16, cases=12000, env={"VERIF_MAXN": "30"},
                 extra_phases=[dict(shards=16, cases=60, env={"VERIF_MAXN": "1300", "VERIF_MAXM": "4000"}, seed_offset=400),
                               dict(shards=16, cases=300, env={"VERIF_MAXN": "300", "VERIF_MAXM": "700"}, seed_offset=450)]),
      thorough=dict(shards=16, cases=100000, env={"VERIF_MAXN": "60"},
